@@ -27,6 +27,7 @@ func init() {
 			"header rows (matching, mismatching, short); csv2 multi-line records (rows / header-footer) with line_index / line_pattern. fixed-length(2): cells " +
 			"at rune positions with gaps, overlaps and positions past the end of the line, multi-line records, lines of 4090-4100 and 65530-65540 bytes, " +
 			"records straddling a buffer refill. Compared on the raw record tree (exact text) and through a no_trim pass-through schema. " +
+			"Also: empty lines between the rows of one multi-row record, inputs of 100-400 records, empty lines and quoted multi-line rows in the regions the old csv reader skips (before the header, between header and data). " +
 			"distinct = digest(format, input); non-trivial = a cell contains a delimiter, quote, line break or multi-byte rune, or a column lies beyond its row/line.",
 		Assumptions: []string{
 			"decoder-level normalisations inherited from the Go decoders the docs point to: inside a quoted csv field CRLF becomes LF; one CR immediately before a line's LF is not part of a fixed-length line",
